@@ -1038,6 +1038,16 @@ func (m *machine) eligibleProviders(c *mCtx, now time.Time) []eligible {
 	for _, p := range c.provs {
 		b := m.binds[bindKey(c.svc, p)]
 		if b == nil || !b.avail || b.qos > uint64(c.timeout) {
+			if swOpStats {
+				switch {
+				case b == nil:
+					m.cl["filter/unbound"]++
+				case !b.avail:
+					m.cl["filter/unavailable"]++
+				default:
+					m.cl["filter/qos"]++
+				}
+			}
 			continue
 		}
 		price := mustBig(b.pricing.Price)
@@ -1050,6 +1060,13 @@ func (m *machine) eligibleProviders(c *mCtx, now time.Time) []eligible {
 				return nil
 			}
 			ex = floorMul(price, new(big.Rat).Mul(d, mustRat(r)))
+		}
+		if swOpStats {
+			if ex.Cmp(c.cap) <= 0 {
+				m.cl["filter/pass"]++
+			} else {
+				m.cl["filter/cap"]++
+			}
 		}
 		if ex.Cmp(c.cap) <= 0 {
 			out = append(out, eligible{prov: p, denom: b.pricing.Denom, fee: fee, base: price, disc: d.Cmp(ratOne) != 0})
